@@ -2981,7 +2981,7 @@ void QXmppJingleMessageInitiationElement::setMigratedTo(const QString &migratedT
 /// \cond
 void QXmppJingleMessageInitiationElement::parse(const QDomElement &element)
 {
-    std::optional<Type> type { stringToJmiElementType(element.nodeName()) };
+    std::optional<Type> type { stringToJmiElementType(element.tagName()) };
 
     if (!type.has_value()) {
         return;
